@@ -718,6 +718,11 @@ impl<RS> Xlsx<RS> {
     pub open spec fn knows(&self, name: Seq<char>) -> bool { exists|i: int| 0 <= i < self.g_sheets()@.len() && (#[trigger] self.g_sheets()@[i]).0@ == name }
 }
 
+/// the first sheet entry with exactly this name
+pub open spec fn first_named(sh: Seq<(String, String)>, name: Seq<char>, i: int) -> bool {
+    0 <= i < sh.len() && sh[i].0@ == name && forall|j: int| 0 <= j < i ==> (#[trigger] sh[j]).0@ != name
+}
+
 //@@ impl src/xlsx/mod.rs Xlsx nth=1
 //@@ fn src/xlsx/mod.rs Xlsx::worksheet_cells_reader props=C07,C16 entry ret=r deref_pat
 //@@ sig
@@ -732,6 +737,14 @@ impl<RS> Xlsx<RS> {
         r is Ok ==> exists|i: int| 0 <= i < old(self).g_sheets()@.len() && (#[trigger] old(self).g_sheets()@[i]).0@ == name@
             && (forall|j: int| 0 <= j < i ==> (#[trigger] old(self).g_sheets()@[j]).0@ != name@)
             && part_events(content(old(self).g_zip()), old(self).g_sheets()@[i].1@) == Some((r->Ok_0).xml_events()),
+        //# C07.cells_reader_opens_the_first_sheet_of_that_name
+        forall|i: int| #[trigger] first_named(old(self).g_sheets()@, name@, i) ==> ({
+            let c = content(old(self).g_zip()); let path = old(self).g_sheets()@[i].1@;
+            &&& (r is Ok <==> has_part(c, path) && part_events(c, path) is Some && prologue_ok(part_events(c, path)->Some_0))
+            &&& (r is Ok ==> part_events(c, path) == Some((r->Ok_0).xml_events())) }),
+        //# C07.cells_reader_stream_of_that_part
+        r is Ok ==> (r->Ok_0).fml_remaining() == fml_stream((r->Ok_0).xml_events()).0 && (r->Ok_0).fml_terminal() == fml_stream((r->Ok_0).xml_events()).1
+            && (r->Ok_0).dims() == declared_dims((r->Ok_0).xml_events()),
         //# C07.cells_reader_strings_formats
         r is Ok ==> (r->Ok_0).strings() == old(self).g_strings()@ && (r->Ok_0).formats() == old(self).g_formats()@,
         //# C16.date_system_flag_reaches_cells
@@ -770,16 +783,36 @@ pub uninterp spec fn ws_range(st: Loaded, opts: XlsxOptions, name: Seq<char>) ->
 pub uninterp spec fn ws_range_ref<'a>(st: Loaded, opts: XlsxOptions, name: Seq<char>) -> Result<Range<DataRef<'a>>, XlsxError>;
 pub open spec fn strs(v: Seq<String>) -> Seq<Seq<char>> { v.map_values(|s: String| s@) }
 
-// Stand-ins for the traits `Reader` / `ReaderRef` of src/lib.rs, restricted to the methods the verified text calls (signatures copied)
+// Stand-ins for the traits `Reader` / `ReaderRef` of src/lib.rs, restricted to the methods the verified text calls or implements (signatures copied)
 pub trait Reader<RS>: Sized where RS: Read + Seek {
     type Error;
     fn worksheet_range(&mut self, name: &str) -> Result<Range<Data>, Self::Error>;
+    fn worksheet_formula(&mut self, name: &str) -> Result<Range<String>, Self::Error>;
 }
 pub trait ReaderRef<RS>: Reader<RS> where RS: Read + Seek {
     fn worksheet_range_ref<'a>(&'a mut self, name: &str) -> Result<Range<DataRef<'a>>, Self::Error>;
 }
-impl<RS: Read + Seek> Reader<RS> for Xlsx<RS> {
-    type Error = XlsxError;
+//@@ impl src/lib.rs Dimensions
+// ASSUMED here (external_body): Dimensions::len -- under contract in unit lazyrange (C06.dimensions_len; its u32 overflow on hostile
+// dimensions is registered there)
+//@@ fn src/lib.rs Dimensions::len props=C06 ret=r external_body
+//@@ sig
+    ensures self.start.0 <= self.end.0 && self.start.1 <= self.end.1 ==> r == (self.end.0 - self.start.0 + 1) * (self.end.1 - self.start.1 + 1),
+//@@ end
+//@@ endimpl
+
+/// the cells of a formula stream that carry a formula text (order preserved)
+pub open spec fn keep_ne(cs: Seq<Cell<String>>) -> Seq<Cell<String>>
+    decreases cs.len()
+{
+    if cs.len() == 0 { Seq::empty() } else {
+        let k = keep_ne(cs.drop_last());
+        if cs.last().v()@.len() > 0 { k.push(cs.last()) } else { k }
+    }
+}
+
+//@@ impl src/xlsx/mod.rs "Reader<RS> for Xlsx<RS>"
+//@@ item src/xlsx/mod.rs impl_type "Reader<RS> for Xlsx<RS>::type Error"
     // TRUSTED: callee contract of `Reader::worksheet_range` for Xlsx (the real text is under contract in unit lazyrange: result; the FRAME
     // follows from the frame of `worksheet_cells_reader` proved above -- the function touches `self` only through that call and a read of
     // `self.options.header_row`): the result is a function of the loaded state, the option and the name; a returned range is well-formed
@@ -791,7 +824,57 @@ impl<RS: Read + Seek> Reader<RS> for Xlsx<RS> {
             r == ws_range(old(self).loaded(), old(self).g_opts(), name@),
             r is Ok ==> (r->Ok_0).wf(),
     { unimplemented!() }
-}
+#[verifier::loop_isolation(false)]
+//@@ fn src/xlsx/mod.rs "Reader<RS> for Xlsx<RS>::worksheet_formula" props=C14,C07 entry ret=r
+//@@ sig
+    ensures
+        //# C07.formula_read_is_pure
+        final(self).loaded() == old(self).loaded(),
+        //# C07.formula_read_keeps_header_row_option
+        final(self).g_opts() == old(self).g_opts(),
+        //# C07.formula_unknown_sheet_is_error
+        !old(self).knows(name@) ==> r is Err,
+        //# C14.formula_stream_error_is_returned
+        forall|i: int| #[trigger] first_named(old(self).g_sheets()@, name@, i) ==> ({
+            let evs = part_events(content(old(self).g_zip()), old(self).g_sheets()@[i].1@);
+            has_part(content(old(self).g_zip()), old(self).g_sheets()@[i].1@) && evs is Some && prologue_ok(evs->Some_0) && fml_stream(evs->Some_0).1 is Some ==> r is Err }),
+        //# C14.formula_range_is_the_cells_with_formula_text
+        forall|i: int| #[trigger] first_named(old(self).g_sheets()@, name@, i) ==> ({
+            let evs = part_events(content(old(self).g_zip()), old(self).g_sheets()@[i].1@);
+            has_part(content(old(self).g_zip()), old(self).g_sheets()@[i].1@) && evs is Some && prologue_ok(evs->Some_0) && fml_stream(evs->Some_0).1 is None ==>
+                r is Ok && sparse_of(r->Ok_0, keep_ne(fml_stream(evs->Some_0).0)) }),
+//@@ before /let len = /
+        let ghost stream = cell_reader.fml_remaining();
+        let ghost term0 = cell_reader.fml_terminal();
+        proof { assert(stream.take(0) =~= Seq::<Cell<String>>::empty()); }
+//@@ before /cells\.reserve\(/
+            proof {
+                //# C06.formula_reserve_capped
+                assert(len < 100_000);
+            }
+//@@ loop 0
+            invariant
+                cell_reader.fml_terminal() == term0,
+                cell_reader.fml_remaining().len() <= stream.len(),
+                cell_reader.fml_remaining() == stream.skip(stream.len() - cell_reader.fml_remaining().len()),
+                //# C14.formula_cells_kept_so_far
+                cells@ == keep_ne(stream.take(stream.len() - cell_reader.fml_remaining().len())),
+            decreases cell_reader.fml_remaining().len(),
+//@@ before /if !cell\.val\.is_empty\(\)/
+            proof {
+                let k = stream.len() - cell_reader.fml_remaining().len() - 1;
+                assert(cell == stream[k]);
+                assert(stream.take(k + 1) =~= stream.take(k).push(stream[k]));
+                assert(stream.take(k + 1).drop_last() =~= stream.take(k));
+                assert(cell_reader.fml_remaining() =~= stream.skip(k + 1));
+            }
+//@@ before /Ok\(Range::from_sparse\(cells\)\)/
+        proof {
+            assert(cell_reader.fml_remaining().len() == 0 && term0 is None);
+            assert(stream.take(stream.len() as int) =~= stream);
+        }
+//@@ end
+//@@ endimpl
 impl<RS: Read + Seek> ReaderRef<RS> for Xlsx<RS> {
     // TRUSTED: callee contract of `ReaderRef::worksheet_range_ref` for Xlsx (same remarks)
     #[verifier::external_body]
